@@ -171,7 +171,8 @@ detail::temporary_allocator_dtor_t::temporary_allocator_dtor_t() noexcept
 
 detail::temporary_allocator_dtor_t::~temporary_allocator_dtor_t() noexcept
 {
-    if (--nifty_counter == 0u && temp_stack)
+    // destroy the stacks regardless of whether the main thread has (still) one
+    if (--nifty_counter == 0u)
         temporary_stack_list_obj.destroy();
 }
 
